@@ -1040,7 +1040,100 @@ def gen_cc(control):
 
 
 # ---------------------------------------------------------------------------------------
+# clause: replay -- one sequencer plays one bar object again after the bar was edited in place; one bar object
+# standing in two voices
+# ---------------------------------------------------------------------------------------
+REPLAY_BARS = [
+    [["4", [["C", 4, 1, 64]], None], ["4", [["E", 4, 1, 64], ["G", 4, 2, 90]], None], ["4", None, None], ["4", [["A", 3, 1, 70]], None]],
+    [["8*3:2", [["D", 5, 1, 64]], None], ["8*3:2", [["F", 5, 1, 64]], None], ["8*3:2", [["A", 5, 3, 64]], None], ["2", [["Bb", 2, 1, 64]], None]],
+    [["2", [["F#", 4, 1, 64], ["A", 4, 1, 64]], None], ["2", [["C", 5, 1, 100]], None]],
+]
+REPLAY_EDITS = [["none"], ["setitem", 0, [["G", 2, 1, 64]]], ["setitem", 1, [["Eb", 6, 1, 64], ["Bb", 6, 2, 64]]], ["swap_last", "8", [["B", 4, 1, 64]]],
+                ["swap_last", "4.", [["D", 3, 1, 64]]], ["transpose", "3"], ["note_octave_up"], ["carrier", 0, 60]]
+REPLAY_VIAS = ["play_Bar", "play_Bars", "play_Track", "play_Bars_doubled", "play_Tracks_doubled"]
+
+
+def _norm_of(bar, labels):
+    out = []
+    for e, lab in zip(bar.bar, labels):
+        if e[2] is None:
+            out.append([lab, None, None])
+        else:
+            out.append([lab, [[n.name, n.octave, n.channel, n.velocity] for n in e[2]], getattr(e[2], "bpm", None)])
+    return out
+
+
+def _replay_once(S, site, via, seq, observers, bar, labels, bpm):
+    norm = _norm_of(bar, labels)
+    doubled = via.endswith("_doubled")
+    exp = T.Expected([[norm], [norm]] if doubled else [[norm]], bpm)
+    del seq.stream[:]
+    for _, o in observers:
+        del o.stream[:]
+    if via == "play_Bar":
+        ret = seq.play_Bar(bar, 1, bpm)
+    elif via == "play_Bars":
+        ret = seq.play_Bars([bar], [1], bpm)
+    elif via == "play_Track":
+        t = Track()
+        t.add_bar(bar)
+        ret = seq.play_Track(t, 1, bpm)
+    elif via == "play_Bars_doubled":
+        ret = seq.play_Bars([bar, bar], [1, 2], bpm)              # the same Bar object in both voices
+    elif via == "play_Tracks_doubled":
+        t1, t2 = Track(), Track()
+        t1.add_bar(bar)
+        t2.add_bar(bar)
+        ret = seq.play_Tracks([t1, t2], [1, 2], bpm)
+        seq.stream[:] = [e for e in seq.stream if e[0] != "instr"]
+        for _, o in observers:
+            o.stream[:] = [e for e in o.stream if e[0] != "instr"]
+    else:
+        raise engine.HarnessError("unknown via %r" % via)
+    S.trans(1)
+    judge_play(S, site, exp, seq, observers, ret, not doubled)
+
+
+def run_replay(case):
+    """case = [bar index, via, edit]"""
+    S = engine.S
+    S.sample(case)
+    bi, via, edit = case
+    entries = REPLAY_BARS[bi]
+    bar, norm = build_bar(entries, (4, 4))
+    if bar is None:
+        raise engine.HarnessError("replay bar refused a placement")
+    labels = [e[0] for e in entries]
+    seq, observers = rig()
+    _replay_once(S, "%s (first time)" % via, via, seq, observers, bar, labels, 120)
+    how = edit[0]
+    if how == "setitem":
+        nc, _ = build_nc(edit[2])
+        bar[edit[1]] = nc
+    elif how == "swap_last":
+        bar.remove_last_entry()
+        nc, _ = build_nc(edit[2])
+        lab = edit[1]
+        if not bar.place_notes(nc, V.BY_LABEL[lab][1]):
+            lab = "16"                                   # the longer value does not fit this bar: a shorter one
+            if not bar.place_notes(nc, V.BY_LABEL[lab][1]):
+                raise engine.HarnessError("replay edit does not fit")
+        labels = labels[:-1] + [lab]
+    elif how == "transpose":
+        bar.transpose(edit[1])
+    elif how == "note_octave_up":
+        bar.bar[0][2].notes[0].octave_up()
+    elif how == "carrier":
+        bar.bar[edit[1]][2].bpm = edit[2]
+    elif how != "none":
+        raise engine.HarnessError("unknown edit %r" % (edit,))
+    _replay_once(S, "%s by the same sequencer again after %r on the bar" % (via, edit), via, seq, observers, bar, labels, 120)
+    S.count("replays")
+
+
+# ---------------------------------------------------------------------------------------
 CLAUSES = {
+    "replay": run_replay,
     "note": run_note,
     "container": run_container,
     "bar": run_bar,
@@ -1122,6 +1215,9 @@ def explore(ctx):
         ctx.bound("tracks", dict(("%d track(s): voices" % k, len(v["voices"])) for k, v in TRK_CFG.items()))
         shards = [(k, i) for k in sorted(TRK_CFG) for i in range(len(TRK_CFG[k]["voices"]))]
         ctx.product("tracks", shards, gen_tracks)
+    if ctx.want("replay"):
+        ctx.bound("replay", {"bars": len(REPLAY_BARS), "edits": REPLAY_EDITS, "calls": REPLAY_VIAS})
+        ctx.product("replay", list(range(len(REPLAY_BARS))), lambda bi: ([bi, via, e] for via in REPLAY_VIAS for e in REPLAY_EDITS))
     # -- observers, control changes -------------------------------------------------------
     if ctx.want("observers"):
         ctx.bound("observers", {"observers": [2, 3], "depth": ctx.pick(4, 6), "actions": ObserverSpec(3).actions(),
